@@ -11,7 +11,7 @@ OPS = {
 # oracle ops whose expected answer is a constant: the request carries the intended result, or the
 # law is evaluated on the real code alone; anything but these answers is an oracle failure
 CONST_OK = {"numlaws", "cmplaws", "containslaws", "keyorder", "tostrcheck", "jpexpect", "kpexpect", "jexpect",
-            "jproundtrip", "kproundtrip", "modes", "tj", "serdecheck", "sniffbig"}
+            "jproundtrip", "kproundtrip", "modes", "tj", "serdecheck", "sniffbig", "chaincheck", "deep"}
 OK_ANSWERS = ("ok", "not-accepted", "not-applicable", "skip", "bad-path")
 
 
@@ -64,7 +64,7 @@ PROPS = {
     "C12": {
         "panic_is_violation": True,
         "proved": "for the rule set as a tree function: array rule (every right element matched, scalars by equality, containers by containment), invariance under permutation and duplication of the right array, object rule (every member under the same key), bare-scalar rule, scalar equality = compare equality, reflexivity (good documents), transitivity (unconditional for well-formed numbers; the top-level special case composes), fuel independence",
-        "missing": "byte-level refinement Fn.contains (enc a) (enc b) = Spec.contains a b is not proved: correspondence + spec oracle",
+        "missing": "nothing known: the byte-level refinement Fn.contains (enc a) (enc b) = Spec.contains a b is now proved for all good documents (C12_contains_refines); outside good documents (e.g. raw bytes with duplicate keys) the two differ, which the property does not cover",
         "assumptions": ["documents are canonical encodings of good values"],
     },
     "C13": {
@@ -129,14 +129,26 @@ PROPS = {
     },
     "C11": {
         "panic_is_violation": True,
-        "proved": "for every text t sniffed as text with parse_value t = Ok v (v inside the field widths, fewer than 2^24 top-level members) and every other argument: each public function of functions.rs, modelled WITH its sniffing and its text branch (T.*), returns on t exactly what it returns on encodeSpec v = parse_value(t).to_vec(): generic theorems for the parse-encode-run shape with one and two document arguments in all four text/binary combinations (array_insert, object_insert, array_distinct/intersection/except/overlap, object_delete/pick, to_serde_json), and individual theorems through the C05/C06/C04 refinements for the functions with a tree implementation of the text branch (array_length, type_of, get_by_index/name/keypath, object_keys, as_null/bool/number/str, exists_all_keys, strip_nulls, delete_by_name, traverse_check_string, convert_to_comparable, path_exists, get_by_path*, compare in its three text cases, parse_lazy_value)",
-        "missing": "contains / concat (their text case goes through from_slice on BOTH arguments) and delete_by_index / delete_by_keypath text branches are decided by correspondence + the tj oracle only; D21: first byte of a valid array with >= 2^24 elements is 0x81.., which is_jsonb takes for text (C11_sniff_false_huge, known finding)",
+        "proved": "for every text t sniffed as text with parse_value t = Ok v (v inside the field widths, fewer than 2^24 top-level members) and every other argument: each public function of functions.rs, modelled WITH its sniffing and its text branch (T.*), returns on t exactly what it returns on encodeSpec v = parse_value(t).to_vec(): generic theorems for the parse-encode-run shape with one and two document arguments in all four text/binary combinations (array_insert, object_insert, array_distinct/intersection/except/overlap, object_delete/pick, to_serde_json), and individual theorems through the C05/C06/C04 refinements for the functions with a tree implementation of the text branch (array_length, type_of, get_by_index/name/keypath, object_keys, as_null/bool/number/str, exists_all_keys, strip_nulls, delete_by_name, traverse_check_string, convert_to_comparable, path_exists, get_by_path*, compare in its three text cases, parse_lazy_value, contains in all three text/binary combinations (through from_slice + C10_text_fallback + the C12 byte-level refinement), concat text/text, delete_by_index)",
+        "missing": "concat mixed text/binary, delete_by_index on non-array text and delete_by_keypath text branches are decided by correspondence + the tj oracle only; D21: first byte of a valid array with >= 2^24 elements is 0x81.., which is_jsonb takes for text (C11_sniff_false_huge, known finding)",
         "assumptions": ["text accepted by parse_value, not starting with a space, value inside the field widths"],
     },
     "C19": {
         "panic_is_violation": True,
-        "proved": "numbers convert as the same u64 / i64 / f64 and non-finite floats are an error of the byte walker (C19_number_kinds); number -> serde -> number gives an equal number (C19_number_roundtrip)",
-        "missing": "the structural theorems (byte walker = tree conversion on every document; mutual inverse on trees) are not proved yet: decided by correspondence (model of the walker vs Rust) and by the serdecheck oracle on the real code (structure, member sets, number kinds, inverse, object-only variant, agreement with an independent strict parse of the rendering)",
+        "proved": "for every good document with finite numbers (unbounded size and depth): the byte walker to_serde_json on the encoding = the tree conversion From<Value> (C19_walker_refines), which equals what the independent strict RFC 8259 reader of C03 reads from to_string's text, converted (C19_same_as_strict_parse); numbers as the same u64 / i64 / f64 (C19_number_kinds); object-only variant (C19_object_variant); Value -> serde -> Value gives an equal value, identical when integers are unsigned (C19_value_roundtrip); serde -> Value -> serde gives the same serde value with members in key order, identical when already sorted (C19_serde_roundtrip); on non-finite floats the walker returns an error where the tree conversion panics, first failure in the same place (C19_walker_total)",
+        "missing": "behaviour of to_serde_json on bytes that are not encodings of good trees is outside; ryu float text enters as the hypothesis fmtOK (validated per instance as in C03); serde_json's own Map/Number semantics are modelled (insertion-ordered, replace on duplicate; PosInt/NegInt/Float)",
         "assumptions": ["finite numbers"],
+    },
+    "C07": {
+        "panic_is_violation": True,
+        "proved": "CHAIN THEOREM by induction over the operation list, for all 20 operations (concat, delete by name/index/key path, array_insert, object_insert, object_delete/pick, strip_nulls, get_by_index/name/keypath, object_keys, array_distinct/intersection/except, build_array, build_object, get_by_path_first/array) with arguments that are literals, the current document or a sub-value of it: the byte-level chain on encodeSpec v returns exactly the encodings of the tree-level chain (C07_chain), every intermediate tree is canonical (C07_chain_good), every intermediate byte string decodes with nothing trailing, re-encodes to the identical bytes (C07_intermediate_canonical) and byte equality coincides with value identity across chains (C07_chains_byte_eq_iff); the side conditions of the growing operations are pure size bounds (C07_sizes: sortedness/uniqueness of keys, UTF-8, number ranges and nested lengths are preserved without assumption); a sound Bool checker of the side conditions (C07_checker) and two kernel-checked chains covering all 20 operations",
+        "missing": "for JSONPath steps with filters the adequacy of the evaluator fuel is a hypothesis (third conjunct of PathOK; discharged for filter-free paths by C07_path_plain, decidable by evaluation); results must stay inside the format's field widths (count < 2^29, embedded payload < 2^28)",
+        "assumptions": ["start document is the canonical encoding of a good value; literal arguments are canonical documents"],
+    },
+    "C20": {
+        "panic_is_violation": True,
+        "proved": "the models make every overflow / index / slice / unwrap of the Rust code an explicit panic outcome and the theorems quantify over every good document, i.e. every nesting depth: encoder, decoder, text parser, renderer and compare have no depth-dependent failure (C20_any_depth_logic, C20_any_depth_to_string); the depth marker of convert_to_comparable cannot overflow (C20_depth_marker_total, repaired defect D20); delete_by_index, array_insert, delete_by_keypath, get_by_keypath and JSONPath index arithmetic are exact for every i32 including the minimum and maximum (C20_*_every_i32, C20_delete_by_index_min_max, C20_convert_index)",
+        "missing": "consumption of the native stack by the recursive Rust functions cannot be exhibited by the model: observed on the real code by the `deep` ops, one process per case, depths 1..3000 must complete for every API, 10000 and beyond is known finding D15 for the recursive APIs and must complete for the iterative ones",
+        "assumptions": [],
     },
 }
